@@ -1463,6 +1463,10 @@ class Vector():
 		if self._dtype is not None and self._dtype.kind in (bool, int) and isinstance(other, int):
 			warnings.warn(f"The behavior of >> and << have been overridden for concatenation. Use .bitshift() to shift bits.")
 
+		if isinstance(other, Vector) and other.ndims() == 2 and self.ndims() != 2:
+			# row << table: the table decides (one item per column, before its rows) - Python asks
+			# Table.__rlshift__ only when the left operand is a plain Vector, not for the typed classes
+			return other.__rlshift__(self)
 		if isinstance(other, Vector):
 			# dtype is inferred from the concatenated values (never reuse self's dtype:
 			# the appended values may be None or of another kind)
